@@ -15,7 +15,9 @@ echo "--- demo with the change (expect exit 1)"
 NORMINETTE_REPO=$wt /venv/bin/python $d/demo.py >/tmp/demo-mut.$$ 2>&1; echo "exit=$?"; tail -3 /tmp/demo-mut.$$
 for c in "$@"; do
   echo "--- ./check $c --tier quick against the change"
+  cp /verif/evidence/$c.json /tmp/evid-keep-$c.$$ 2>/dev/null      # the committed evidence is that of the unchanged tree
   (cd /verif && NORMINETTE_REPO=$wt ./check $c --tier quick >/tmp/seedrun.$$ 2>&1; echo "exit=$?"; grep -E "VIOLATION|MACHINERY" /tmp/seedrun.$$ | head -3; grep -c "KNOWN-FINDING" /tmp/seedrun.$$ | sed 's/^/known-finding lines: /'; rm -f /tmp/seedrun.$$)
   cp /verif/evidence/$c.json /tmp/evid-mut-$c.json 2>/dev/null
+  [ -f /tmp/evid-keep-$c.$$ ] && mv /tmp/evid-keep-$c.$$ /verif/evidence/$c.json
 done
 rm -f /tmp/demo-clean.$$ /tmp/demo-mut.$$
